@@ -532,10 +532,10 @@ class InProtocolBase(ProtocolMixin):
         days += int(duration['years']) * 365
         hours = int(duration['hours'])
         minutes = int(duration['minutes'])
-        seconds = float(duration['seconds'])
-        f, i = modf(seconds)
-        seconds = i
-        microseconds = int(1e6 * f)
+        # decimal arithmetic: binary floats lose microseconds (e.g. .000249)
+        seconds = D(duration['seconds'])
+        microseconds = int((seconds - int(seconds)) * 1000000)
+        seconds = int(seconds)
 
         delta = timedelta(days=days, hours=hours, minutes=minutes,
             seconds=seconds, microseconds=microseconds)
